@@ -988,18 +988,18 @@ def jax_recipes(draw, tier):
 
 SUBS = [
     Sub(name="classic_splits", check=check_classic, strategy=lambda tier: classic_recipes(tier),
-        quick=96, thorough=4000, shards=12, budget_quick=90,
+        quick=160, thorough=6000, shards=8, budget_quick=85,
         rule="StandardHamiltonians on 2-3 keys x ALL admissible (constants, point_estimates) splits (12 resp. 56 per "
              "case); non-trivial = some split has non-empty constants and point_estimates that differ, the residuals "
              "are non-zero and the reference is finite"),
     Sub(name="classic_distributed", check=check_distributed,
         strategy=lambda tier: classic_recipes(tier, distributed=True),
-        quick=48, thorough=2000, shards=4, budget_quick=90,
+        quick=240, thorough=8000, shards=3, budget_quick=85,
         rule="one generated split per case with the samples distributed over 2-4 simulated MPI tasks (greenlet "
              "ranks with their own RNG stacks, generated rendezvous schedule); the same relations hold on every "
              "rank; non-trivial = uneven shares or a non-empty split, non-zero residuals"),
     Sub(name="jax_kl", check=check_jax, strategy=lambda tier: jax_recipes(tier), jax=True,
-        quick=48, thorough=1500, shards=8, budget_quick=90,
+        quick=70, thorough=2500, shards=5, budget_quick=85,
         rule="nifty.re likelihood zoo (Gaussian, StudentT, Poissonian, VariableCovarianceGaussian, sums; 4 forward "
              "templates over 2-3 keys) with drawn mirrored (linear / nonlinear, with point estimates), hand-made "
              "unmirrored, or no samples; OptimizeVI.kl_value_and_grad / kl_metric (jit or not, vmap/lmap/smap), "
